@@ -90,7 +90,9 @@ func TestVerifC03Address(t *testing.T) {
 		es := fixture.EntrySpec{}
 		for k := 0; k < 200; k++ {
 			sig++
-			es.Txs = append(es.Txs, fixture.TxSpec{SigID: sig, Accounts: []int{1000 + sig}, DataFrames: 1, MetaFrames: 1})
+			// three of four transactions are v0 messages with an address-table lookup (their account list cannot be
+			// resolved without the metadata), the rest legacy
+			es.Txs = append(es.Txs, fixture.TxSpec{SigID: sig, Accounts: []int{1000 + sig}, DataFrames: 1, MetaFrames: 1, Lookups: sig%4 != 0})
 		}
 		bs.Entries = []fixture.EntrySpec{es}
 		spec.Blocks = append(spec.Blocks, bs)
